@@ -9,6 +9,10 @@ request is served:
   Simulation.calculate_divide               its three guards, the period it computes, the denominator it takes
   Holder._set                               the period check behind put_in_cache / set_input
   Holder.set_input                          the ETERNITY guard
+  Variable.get_formula                      (kind formulascan)  its `return None` guards and the reversed first-match scan of the SortedDict
+  ParameterNodeAtInstant.__init__           (kind childrenloop) the loop keeping the children that are not None at the instant
+  Holder.get_array                          (kind holderlookup) the lookup through the memory and the disk store
+  Holder._set (tail)                        (kind holderstore)  `should_store_on_disk` and which store the branch writes to
 
 into `lean/OFCore/OFCore/GeneratedGuards.lean`.  `Props/C03Tie.lean` (and `C01Tie`, `C16Tie`) prove that the hand-written
 models (`AddDivide.lean`, `RuleSys.servedPeriod`, `SetInput.lean`) take exactly the generated decisions, for every unit,
